@@ -93,6 +93,15 @@ func c09Values(tier string) (vals []c09Value, nulls []c09Null) {
 	for _, j := range []string{`{"a": 1}`, `[]`} {
 		add("jsonb", 3802, j, "text:"+j, c09Form{"string", j}, c09Form{"[]byte", []byte(j)})
 	}
+	// a typed nil map / slice is a value (JSON null), whatever the library decides it must arrive as a well-formed field
+	add("jsonb", 3802, "null (nil map)", "text:null", c09Form{"map[string]any(nil)", map[string]any(nil)}, c09Form{"[]any(nil)", []any(nil)})
+	add("json", 114, "null (nil map)", "text:null", c09Form{"map[string]any(nil)", map[string]any(nil)})
+	// values larger than anything the connection has written before (the frame grows while the value is added)
+	for _, n := range []int{4090, 6000, 70000} {
+		v := strings.Repeat("L", n)
+		add("text", 25, fmt.Sprintf("%d bytes", n), "text:"+v, c09Form{"string", v})
+		add("bytea", 17, fmt.Sprintf("%d bytes", n), "bytes:"+strings.Repeat("4c", n), c09Form{"[]byte", []byte(v)})
+	}
 	addNull := func(t string, o uint32, forms ...c09Form) {
 		nulls = append(nulls, c09Null{t, o, append([]c09Form{{"untyped nil", nil}}, forms...)})
 	}
@@ -350,6 +359,55 @@ func c09RunTwoPortals(cell c09Cell, firstBinary bool) explore.Result {
 	return res
 }
 
+// c09RunRowLimit: the client's Execute names a maximum number of rows. Whatever the library does with that field,
+// a row whose Row call returned nil arrives (there is no way for the handler to learn that it was dropped).
+func c09RunRowLimit(rows int, limits []uint32) explore.Result {
+	var res explore.Result
+	res.Outcome = "values"
+	res.Key = fmt.Sprint("row-limit", rows, limits)
+	accepted := 0
+	parse := func(ctx context.Context, q string) (wire.PreparedStatements, error) {
+		return wire.Prepared(wire.NewStatement(func(ctx context.Context, w wire.DataWriter, p []wire.Parameter) error {
+			accepted = 0
+			for i := 0; i < rows; i++ {
+				if err := w.Row([]any{int32(i)}); err != nil {
+					return err
+				}
+				accepted++
+			}
+			return w.Complete(fmt.Sprintf("SELECT %d", rows))
+		}, wire.WithColumns(wire.Columns{{Name: "n", Oid: 23}}))), nil
+	}
+	one, err := harness.StartOne(parse)
+	if err != nil {
+		res.Engine = err.Error()
+		return res
+	}
+	defer one.Stop()
+	one.Step(pgproto.Startup("user", "u"))
+	for _, lim := range limits {
+		out, _ := one.Step(pgproto.Cat(pgproto.Parse("", "q"), pgproto.Bind("", "", nil, nil, nil), pgproto.Execute("", lim), pgproto.Sync()))
+		ms, perr := pgproto.ParseBackend(out)
+		if perr != nil {
+			res.Fail("reply-grammar", perr.Error())
+			return res
+		}
+		got := 0
+		for _, m := range ms {
+			if m.Type == 'D' {
+				if len(m.Row) != 1 || string(m.Row[0]) != fmt.Sprint(got) {
+					res.Fail("value-mismatch", fmt.Sprintf("Execute with a maximum of %d rows: DataRow %d carries %v", lim, got, m))
+				}
+				got++
+			}
+		}
+		if got != accepted {
+			res.Fail("datarow-count", fmt.Sprintf("Execute with a maximum of %d rows: the handler wrote %d rows successfully (Row returned nil), %d DataRows arrived (reply %q)", lim, accepted, got, pgproto.Kinds(ms)))
+		}
+	}
+	return res
+}
+
 // c09RunMulti: one simple query of several statements with different column sets. A client decodes each DataRow
 // with the RowDescription received last: field count and every value must match it.
 func c09RunMulti(sets [][]c09Cell) explore.Result {
@@ -584,6 +642,13 @@ func c09Enumerate(tier string, emit explore.Emit) {
 			}
 		}
 		return c09Cell{}, false
+	}
+	for _, rows := range []int{1, 5} {
+		for _, limits := range [][]uint32{{0}, {1}, {2}, {5}, {6}, {0, 2, 1, 0}, {1 << 31}} {
+			rows, limits := rows, limits
+			emit(explore.Case{Family: "row-limit", Size: 3, Desc: func() any { return map[string]any{"rows_written": rows, "execute_max_rows": limits} },
+				Run: func() explore.Result { return c09RunRowLimit(rows, limits) }})
+		}
 	}
 	// multi-statement simple queries over different column sets
 	for _, shape := range [][]int{{1, 2}, {2, 1}, {1, 3, 2}, {3, 3}, {2, 1, 1}} {
